@@ -380,3 +380,167 @@ theorem c09_stop_never_stuck_nonblocking {s : St} (h : Reach lts (init []) s) (h
     | returned r => exact absurd hr (hnot r)
 
 end GoSup.Props.C09L
+
+namespace GoSup.Props.C09L
+open GoSup.Core GoSup.CompLts
+open GoSup.CompSeq (CbRes Out names)
+
+/-- the actions of the library's own threads and of children's `Stop()`s, without the two that wait for the user's
+configuration callback (`runBoot`, `rlCallback`: how long that takes, and how large a configuration it returns, is the
+environment's business) -/
+def isLib : Act → Bool
+  | .runEnter | .runToRunning | .runSelCtx | .runSelStop | .runSelErr | .runToStopping | .runStopBegin | .runStopEnd | .runFinish
+  | .rlEnter | .rlDecide | .rlStopBegin | .rlStopEnd | .rlSetConfig | .rlBoot | .rlChildReload | .rlFinish
+  | .childStopRet _ => true
+  | _ => false
+
+def cfgLen (s : St) : Nat := (s.cfg.getD []).length
+
+def runPart (s : St) : Nat :=
+  match s.run with
+  | .idle => 11 + cfgLen s | .entered => 10 + cfgLen s | .booted => 9 + cfgLen s | .select => 8 + cfgLen s
+  | .afterSelect => 7 + cfgLen s | .toStop => 6 + cfgLen s | .failToStop _ => 6 + cfgLen s
+  | .stopping p => 3 + p.length | .failStopping p _ => 3 + p.length | .stopped => 2 | .returned _ => 0
+
+def rlPart (s : St) : Nat :=
+  match s.rl with
+  | .idle => 0 | .entered => 1
+  | .gotConfig cfg => 6 + cfg.length + cfgLen s | .restart cfg => 5 + cfg.length + cfgLen s | .skip cfg => 3 + cfg.length
+  | .stopping cfg p => 4 + cfg.length + p.length | .stoppedOld cfg => 3 + cfg.length | .configSet => 2 | .children => 2
+  | .finishing => 1
+
+/-- steps the library (and its children's `Stop()`s) can still take before the next answer of a configuration callback -/
+def measure (s : St) : Nat := runPart s + rlPart s + 2 * s.pendingRl
+
+end GoSup.Props.C09L
+
+namespace GoSup.Props.C09L
+open GoSup.Core GoSup.CompLts
+open GoSup.CompSeq (CbRes Out names)
+
+theorem names_length (cfg : List (Nat × Nat)) : (names cfg).length = cfg.length := by simp [names]
+
+theorem erase_length_of_contains (p : List Nat) (c : Nat) (h : p.contains c = true) : (p.erase c).length + 1 = p.length := by
+  have hm : c ∈ p := by simpa using h
+  rw [List.length_erase_of_mem hm]
+  have : 0 < p.length := List.length_pos_of_mem hm
+  omega
+
+@[simp] theorem boot_cfg' (s : St) (f : Bool) (c : List (Nat × Nat)) : (boot s f c).cfg = s.cfg := by unfold boot; split <;> rfl
+@[simp] theorem boot_pendingRl (s : St) (f : Bool) (c : List (Nat × Nat)) : (boot s f c).pendingRl = s.pendingRl := by
+  unfold boot; split <;> rfl
+@[simp] theorem cancelLive_cfg' (s : St) : (cancelLive s).cfg = s.cfg := by unfold cancelLive; split <;> rfl
+@[simp] theorem cancelLive_pendingRl (s : St) : (cancelLive s).pendingRl = s.pendingRl := by unfold cancelLive; split <;> rfl
+
+theorem runPart_setCfg (s : St) (cfg : List (Nat × Nat)) (rl' : RlPc) :
+    runPart { s with cfg := some cfg, rl := rl' } ≤ runPart s + cfg.length := by
+  unfold runPart cfgLen
+  cases s.run <;> simp <;> omega
+
+theorem lib_step_decreases (s : St) (a : Act) (s' : St) (hl : isLib a = true) (hs0 : lts.step s a = some s') :
+    measure s' < measure s := by
+  have hs : step s a = some s' := hs0
+  clear hs0
+  cases a <;> simp only [isLib] at hl <;> simp only [step] at hs
+  case childStopRet c =>
+    split at hs
+    · split at hs
+      · rename_i p hr hc
+        simp only [Bool.and_eq_true] at hc
+        have := erase_length_of_contains p c hc.1
+        cases hs
+        simp only [measure, runPart, rlPart, cfgLen, hr]
+        omega
+      · cases hs
+    · split at hs
+      · rename_i p e hr hc
+        simp only [Bool.and_eq_true] at hc
+        have := erase_length_of_contains p c hc.1
+        cases hs
+        simp only [measure, runPart, rlPart, cfgLen, hr]
+        omega
+      · cases hs
+    · split at hs
+      · rename_i cfg p hrl hr1 hr2 hc
+        simp only [Bool.and_eq_true] at hc
+        have := erase_length_of_contains p c hc.1
+        cases hs
+        simp only [measure, runPart, rlPart, cfgLen, hrl]
+        omega
+      · cases hs
+    · cases hs
+  case rlSetConfig =>
+    split at hs
+    · rename_i cfg hrl
+      cases hs
+      have := runPart_setCfg s cfg RlPc.configSet
+      simp only [measure, rlPart, hrl] at this ⊢
+      omega
+    · rename_i cfg hrl
+      cases hs
+      have := runPart_setCfg s cfg RlPc.children
+      simp only [measure, rlPart, hrl] at this ⊢
+      omega
+    · cases hs
+  all_goals
+    repeat' (split at hs)
+    all_goals first
+      | (cases hs; done)
+      | (cases hs; simp_all [measure, runPart, rlPart, cfgLen, names_length] <;> omega)
+
+end GoSup.Props.C09L
+
+namespace GoSup.Props.C09L
+open GoSup.Core GoSup.CompLts
+open GoSup.CompSeq (CbRes Out names)
+
+def booted (s : St) : Bool := match s.run with | .idle | .entered => false | _ => true
+
+theorem lib_keeps {s s' : St} {a : Act} (hl : isLib a = true) (hs : step s a = some s')
+    (h1 : s.stopReq = true) (h2 : booted s = true) : s'.stopReq = true ∧ booted s' = true := by
+  cases a <;> simp only [isLib] at hl <;> simp only [step] at hs
+  all_goals
+    repeat' (split at hs)
+    all_goals first
+      | (cases hs; done)
+      | (cases hs; simp_all [booted, boot, cancelLive] <;> (try split) <;> simp_all)
+
+/-- **The library's own steps are bounded** (C09, third clause): between two answers of the configuration callback the
+`Run` and `Reload` threads and the children's `Stop()`s can take at most `measure s` steps. -/
+theorem c09_lib_steps_bounded (s t : St) (as : List Act) (hall : as.all isLib = true) (hrun : run lts s as = some t) :
+    as.length + measure t ≤ measure s :=
+  run_length_le_measure isLib measure lib_step_decreases s t as hall hrun
+
+/-- **With children whose `Stop()` never waits, `Stop()` returns** (C09, third clause) — every interleaving: from every
+reachable state in which `Run` has booted and a `Stop()` caller is waiting, the steps of the library and of the children's
+`Stop()`s lead to the return of `Run()` within `measure s` steps, without needing another answer of the configuration
+callback, and by `c09_lib_steps_bounded` they cannot go on for longer. -/
+theorem c09_stop_returns_nonblocking {s : St} (h : Reach lts (init []) s) (hstop : s.stopReq = true) (hb : booted s = true) :
+    ∃ as t, as.all isLib = true ∧ run lts s as = some t ∧ (∃ r, t.run = .returned r) ∧ as.length ≤ measure s := by
+  apply exists_final_run isLib measure (fun u => Reach lts (init []) u ∧ u.stopReq = true ∧ booted u = true)
+    (fun u => ∃ r, u.run = .returned r)
+  · intro u a u' hp hl hs
+    have := lib_keeps hl hs hp.2.1 hp.2.2
+    exact ⟨.step hp.1 hs, this.1, this.2⟩
+  · intro u hp hf
+    obtain ⟨a, ha, hen⟩ := c09_stop_never_stuck_nonblocking hp.1 hp.2.1 (fun r hr => hf ⟨r, hr⟩)
+    refine ⟨a, ?_, hen⟩
+    -- the enabled action is one of the library's: `runBoot` is not enabled once `Run` has booted
+    simp only [progressActs, List.mem_append, List.mem_cons, List.not_mem_nil, or_false] at ha
+    rcases ha with (((h | h | h | h | h | h | h | h | h) | h) | h)
+    · subst h; rfl
+    · subst h
+      have hbt := hp.2.2
+      simp only [step] at hen
+      split at hen
+      · simp at hen
+      · rename_i hc
+        simp only [Bool.or_eq_true, bne_iff_ne, ne_eq, not_or, Decidable.not_not] at hc
+        simp [booted, hc.1] at hbt
+    all_goals first
+      | (subst h; rfl)
+      | (split at h <;> simp at h <;> (try subst h) <;> rfl)
+  · exact lib_step_decreases
+  · exact ⟨h, hstop, hb⟩
+
+end GoSup.Props.C09L
